@@ -10,7 +10,7 @@ from evalutil import gen_env, eval_jobs, as_bool
 
 S = Sym
 PROPERTY = 'C13'
-PROPS_MODULES = ['C13', 'C13b', 'C13c', 'C13d', 'C13e']
+PROPS_MODULES = ['C13', 'C13b', 'C13c', 'C13d', 'C13e', 'C13f']
 ASSUMPTIONS = ['substitution laws are judged on valuations that bind the substituted variable to the current message (the reading of '
                '"evaluating with that variable bound to the message")']
 
